@@ -42,7 +42,7 @@ RULE = (
     "isomorphic). Distinct by the JSON case."
 )
 ASSUMPTIONS = [
-    "graphs are undirected simple networkx.Graph objects with integer node ids (molecular / ITS graphs)",
+    "graphs are simple networkx.Graph objects with integer node ids (molecular / ITS graphs); DiGraph inputs are covered for faithfulness and determinism only",
     "attribute schema is uniform: a node (edge) attribute is present on every node (edge) of both graphs or on none, "
     "every edge carries 'order', and one attribute has one Python type throughout (1 and 1.0 never both)",
     "the signature covers element, charge, aromatic, hcount on nodes and order, standard_order on edges "
@@ -209,6 +209,53 @@ def _faithful_one(case, G, backend, mod):
         check_faithful(G, sg.canonical, where + " SynGraph.canonical")
     if snapshot(G) != before:
         raise Violation("faithful-input-modified", f"{where}: the input graph was changed")
+
+
+# ------------------------------------------------------------------ faithful on directed graphs
+def to_digraph(case, orient):
+    """The case's edges as arcs: orient[i] = 0 (u->v), 1 (v->u), 2 (both, second arc with the order bumped),
+    3 (both, identical attributes)."""
+    g = nx.DiGraph()
+    for n, a in case["nodes"]:
+        g.add_node(n, **{k: _tup(v) for k, v in a.items()})
+    for i, (u, v, a) in enumerate(case["edges"]):
+        attrs = {k: _tup(x) for k, x in a.items()}
+        o = orient[i % len(orient)] if orient else 0
+        if o == 1:
+            u, v = v, u
+        g.add_edge(u, v, **attrs)
+        if o >= 2:
+            back = dict(attrs)
+            if o == 2 and isinstance(back.get("order"), (int, float)):
+                back["order"] = back["order"] + 1
+            g.add_edge(v, u, **back)
+    return g
+
+
+def body_faithful_directed(case, rec):
+    """GraphCanonicaliser returns 'a new graph of the same type': for a DiGraph the canonical graph must be the
+    input relabelled onto 1..N with every node and arc (both arcs of a reciprocal pair) and attribute kept."""
+    G = to_digraph(case["g"], case["orient"])
+    recip = sum(1 for u, v in G.edges if G.has_edge(v, u)) // 2
+    rec.nt(recip >= 1)
+    rec.label(f"reciprocal-pairs={min(recip, 3)}", "module " + MODS[case["mod"]])
+    rec.show(f"{case['mod']} directed orient={case['orient']}: {show(case['g'])}")
+    for backend in case.get("backends", BACKENDS):
+        m, canon = canonicaliser(case["mod"], backend)
+        before = snapshot(G)
+        cg = canon.make_canonical_graph(G)
+        check_faithful(G, cg, f"{backend} directed {show(case['g'])} orient={case['orient']}")
+        s1 = canon.canonical_signature(G)
+        if canon.canonical_signature(G.copy()) != s1 or not _hex32(s1):
+            raise Violation("deterministic", f"{backend} directed: signature differs on an equal copy")
+        if snapshot(G) != before:
+            raise Violation("faithful-input-modified", f"{backend} directed: the input graph was changed")
+
+
+@st.composite
+def strat_faithful_directed(draw, tier):
+    g = draw(base_graphs(max_nodes=7, extras=False, symmetric=True))
+    return {"g": g, "mod": draw(st.sampled_from(sorted(MODS))), "orient": draw(st.lists(st.integers(0, 3), min_size=1, max_size=8))}
 
 
 _EXTRA_NODE = {"atom_map": st.integers(0, 30), "tag": st.sampled_from(["a", "b"]), "neighbors": st.lists(st.sampled_from(["C", "N"]), max_size=2)}
@@ -661,6 +708,8 @@ def strat_rules(draw, tier):
 SUBS = [
     Sub("faithful", body_faithful, strategy=strat_faithful, examples={"quick": 2000, "thorough": 24000}, shards={"quick": 8, "thorough": 16},
         doc="canonical graph is an attribute-preserving relabelling onto 1..N (all back-ends, both modules, extra attributes); signature deterministic"),
+    Sub("faithful_directed", body_faithful_directed, strategy=lambda tier: strat_faithful_directed(tier), examples={"quick": 1600, "thorough": 16000}, shards={"quick": 8, "thorough": 16},
+        doc="DiGraph inputs incl. reciprocal arcs: same type, ids 1..N, attribute-preserving bijection on nodes and arcs, all four back-ends"),
 ] + [
     Sub(f"classes_{b}", make_body_enum(b), enum=make_enum(), exhaustive=True, shards={"quick": 2, "thorough": 4},
         doc=f"{b}: enumerated domains grouped by signature - every group inside one isomorphism class" + ("; every class in one group with one canonical graph" if b == "nauty" else ""))
